@@ -20,6 +20,11 @@
 (*                           service than it asked for                      *)
 (*   BoundReferrals = FALSE  realms that refer to each other keep the       *)
 (*                           client busy for ever (seed C10-s1)             *)
+(*   AuthRealmOwn = FALSE    the authenticator of a TGS request names the   *)
+(*                           realm that issued the TGT instead of the       *)
+(*                           client's: with a TGT of a foreign realm (third *)
+(*                           hop of a chain) a conformant TGS refuses it    *)
+(*                           (RFC 4120 3.2.3, KRB_AP_ERR_BADMATCH)          *)
 (*                                                                         *)
 (* Tickets  [c, cr, sn, sr, by, k]: client name and realm, server name and  *)
 (* realm ("krbtgt", X = a TGT usable at the TGS of X), issuing realm, id of *)
@@ -34,7 +39,7 @@ CONSTANTS Clients,        \* honest client principals <<name, realm>>
           Wanted,         \* what clients may ask for: <<name, realm>>, registered or not
           Hop(_, _),      \* Hop(x, y): the realm the TGS of x refers to for a server of realm y ("none": no path)
           Nonces, KeyIds, MaxHops, MaxMsgs,
-          CheckNonce, BoundReferrals
+          CheckNonce, BoundReferrals, AuthRealmOwn
 Principals == Clients \cup Attackers
 Name(p) == p[1]
 RealmOf(p) == p[2]
@@ -57,7 +62,9 @@ Login(p, n) == /\ Room /\ FreshNonce(n) /\ pend[p] = {}
                /\ pend' = [pend EXCEPT ![p] = {[n |-> n, want |-> <<TGTName, RealmOf(p)>>, at |-> RealmOf(p), under |-> 0, hops |-> 0]}]
                /\ net' = net \cup {[type |-> "as", c |-> Name(p), cr |-> RealmOf(p), n |-> n]}
                /\ UNCHANGED <<issued, usedKeys, tgts, got, advKeys>>
-TGSMsg(p, t, want, n) == [type |-> "tgs", to |-> t.tkt.sr, tgt |-> t.tkt, ak |-> t.k, c |-> Name(p), cr |-> RealmOf(p), want |-> want, n |-> n]
+\* c, cr: the client the authenticator names.  gokrb5 as found took the realm from the TGT (the realm that issued it): AuthRealmOwn = FALSE
+TGSMsg(p, t, want, n) == [type |-> "tgs", to |-> t.tkt.sr, tgt |-> t.tkt, ak |-> t.k, c |-> Name(p),
+                          cr |-> IF AuthRealmOwn THEN RealmOf(p) ELSE t.tkt.by, want |-> want, n |-> n]
 GetService(p, want, t, n) == /\ Room /\ FreshNonce(n) /\ pend[p] = {} /\ t \in tgts[p] /\ t.tkt.sr = RealmOf(p)
                              /\ pend' = [pend EXCEPT ![p] = {[n |-> n, want |-> want, at |-> t.tkt.sr, under |-> t.k, hops |-> 0]}]
                              /\ net' = net \cup {TGSMsg(p, t, want, n)}
@@ -141,6 +148,8 @@ DeliveredIsRight == \A g \in got : /\ g.tkt \in issued /\ g.tkt.k = g.k
 TGTsAreOwn == \A p \in Principals : \A t \in tgts[p] : t.tkt \in issued /\ t.tkt.k = t.k /\ t.tkt.c = Name(p) /\ t.tkt.cr = RealmOf(p) /\ t.tkt.sn = TGTName
 \* session keys issued to honest clients stay secret
 Secrecy == \A t \in issued : <<t.c, t.cr>> \in Clients => t.k \notin advKeys
+\* every request an honest client makes under a TGT issued to it is one the TGS asked accepts (TGSValid: RFC 4120 3.2.3)
+ClientRequestsValid == \A m \in net : (m.type = "tgs" /\ <<m.tgt.c, m.tgt.cr>> \in Clients) => TGSValid(m)
 \* a request never travels further than the bound
 HopsBounded == \A p \in Principals : \A x \in pend[p] : x.hops <= MaxHops
 HopConstraint == \A p \in Principals : \A x \in pend[p] : x.hops <= MaxHops + 1
